@@ -7,6 +7,9 @@ package main
 
 import (
 	"fmt"
+	"github.com/thought-machine/please/verifharness/hist"
+	"os"
+	"path/filepath"
 	"runtime"
 	"sort"
 	"strings"
@@ -307,6 +310,14 @@ func main() {
 	r := lib.Start("C33", "exploration")
 	lib.Quiet()
 	if r.Replay != "" {
+		var hw struct {
+			Family string `json:"family"`
+		}
+		lib.LoadReplay(r.Replay, &hw)
+		if hw.Family == "visibility" {
+			n, t, _ := historyTier(r) // (small: the whole tier is re-run)
+			r.Finish(lib.Coverage{Evaluations: t, DistinctNontrivial: n, Rule: "replay of the history tier", Exhaustive: true})
+		}
 		var w witness
 		lib.LoadReplay(r.Replay, &w)
 		wd := newWorld(w.ExpDirs, w.Deps)
@@ -405,13 +416,18 @@ func main() {
 		"the statement gives no experimental exemption for test_only while the code deliberately suppresses the test_only restriction for targets in the experimental tree: cases decided only by that are counted as 'open' and not judged",
 		"only declared dependencies are checked (that is what CheckDependencyVisibility iterates); dependency targets are registered in a real BuildGraph, the dependent target is built with NewBuildTarget/AddDependency",
 	}
+	hstates, htrans, hcomplete := historyTier(r)
+	if !hcomplete {
+		exhaustive = false
+	}
+	r.Assume = append(r.Assume, "history tier: `plz build //p:t` (real binary) after every history of edits of the dependency's visibility / test_only and of the depender's kind, with the depender's own inputs unchanged; the build must fail exactly when the current edge is illegal, also when nothing about the depender needs rebuilding")
 	r.Finish(lib.Coverage{
-		Evaluations:        int(evals),
-		DistinctNontrivial: int(nontriv),
+		Evaluations:        int(evals) + htrans,
+		DistinctNontrivial: int(nontriv) + hstates,
 		Rule:               fmt.Sprintf("targets: 6 packages {a,a/b,ab,exp,exp/x,expx} x names {t,u,_t#x,_u#x} x kinds {plain,test,test_only} = %d; dependency configurations: package x visibility set (<=2 of PUBLIC,//a:all,//a/...,//a:t,//a/b:all) x test_only x plain/hidden = %d; every target x every single dependency, and every target x every ordered pair of distinct dependency configurations (pairs over %d configurations in this tier), each with experimental dirs {} and {exp}; non-trivial = not decided by the same-package rule alone, or must fail", len(tgts), len(fullDeps), len(pairDeps)),
 		Samples:            samples.List(),
 		Exhaustive:         exhaustive,
-		Extra:              map[string]any{"open_cases_not_judged": opens, "dep_configs": len(fullDeps), "pair_dep_configs": len(pairDeps), "target_configs": len(tgts)},
+		Extra:              map[string]any{"history_tier_states": hstates, "history_tier_transitions": htrans, "open_cases_not_judged": opens, "dep_configs": len(fullDeps), "pair_dep_configs": len(pairDeps), "target_configs": len(tgts)},
 	})
 }
 
@@ -478,4 +494,48 @@ func flushMin(r *lib.Run) {
 			r.Violate(c, nil, "")
 		}
 	}
+}
+
+// historyTier: the same restriction along edit histories, with the real binary (engine E3). A target whose own inputs did
+// not change is not rebuilt - but whether its dependency may be depended on is a property of the CURRENT graph.
+func historyTier(r *lib.Run) (int, int, bool) {
+	plz := os.Getenv("VERIF_PLZ")
+	if plz == "" {
+		lib.Fatal("VERIF_PLZ not set (the driver builds plz for the history tier)")
+	}
+	root := filepath.Join(lib.VerifRoot, ".work", "hist", "C33")
+	os.RemoveAll(root)
+	defer os.RemoveAll(root)
+	plz = hist.PrivatePlz(plz, filepath.Join(root, "bin"))
+	fam := hist.VisFam{WithNoop: true, WithRm: !r.Quick()}
+	depth := 2
+	if !r.Quick() {
+		depth = 3
+	}
+	e := hist.NewEngine(plz, filepath.Join(root, "vis"), fam)
+	noCache := "[cache]\ndir =\n"
+	visit := func(from *hist.State, ed hist.Edit, obs *hist.Obs, dir string) (any, string) {
+		legal, why := fam.Legal(ed.Src)
+		var history []string
+		if from != nil {
+			history = append(append(history, from.Hist...), ed.Name)
+		} else {
+			history = []string{"init"}
+			if obs.Exit != 0 {
+				lib.Fatal("the initial tree of the visibility family does not build (vacuous scenario):\n%s", obs.Output)
+			}
+		}
+		w := map[string]any{"family": "visibility", "history": history}
+		switch {
+		case obs.Exit == -9:
+			// horizon: an outcome, not a verdict
+		case legal && obs.Exit != 0:
+			r.Violate("history:legal-edge-rejected:"+ed.Kind, w, "the edge //p:t -> //q:d is legal in the current tree but the build fails:\n"+obs.Output)
+		case !legal && obs.Exit == 0:
+			r.Violate("history:illegal-edge-accepted:"+ed.Kind, w, "the build succeeds although "+why+" (targets executed: "+fmt.Sprint(obs.Actions)+")")
+		}
+		return nil, ""
+	}
+	st := e.BFS(depth, noCache, visit, r.OutOfTime)
+	return st.States, st.Transitions, st.Complete
 }
